@@ -14,6 +14,7 @@ from harness import common, export, gen, edits, hier
 from harness.props import _hier
 
 LEVEL = _hier.LEVEL
+EXTRA_PROPS_FILES = ["Scfg/Props/C02Join.lean"]
 STAGES = (("join_returns", "join_returns"), ("restructure_loop", "restructure_loop"), ("restructure_branch", "restructure_branch"))
 
 
